@@ -62,7 +62,8 @@ func Run(r *core.Run) {
 		"the full matrix 6 key types x (32 purpose subsets in thorough / 5 single purposes + general + pairs in quick) x {JWK, base58}, service type lengths 0/1/30/31, endpoint shapes incl. lists with a bad i-th entry (i=1..3) and all 258 lists of length 1-3 over {URI, empty, unparsable, object, number, list} entries, " +
 		"also-known-as, remove lists, replace documents; IsValidOriginalDocument of both validators; oracle both directions; distinct = distinct patch texts; non-trivial = all"
 	r.Assumptions = []string{"independent predicate ref/rules written from the statement and the documented type x purpose table",
-		"URIs are chosen so that every reasonable definition of 'valid URI' agrees (absolute URIs vs unparsable strings)", "non-string entries in id / also-known-as / purpose lists are not generated (the statement does not define them); endpoint lists do mix string and non-string entries (only string entries are constrained)"}
+		"URIs are chosen so that every reasonable definition of 'valid URI' agrees (absolute URIs vs unparsable strings)", "non-string entries in id / also-known-as / purpose lists are not generated (the statement does not define them); endpoint lists do mix string and non-string entries (only string entries are constrained)",
+		"service types are ASCII: the statement limits the type to 30 characters and the library counts bytes, which is the same thing only for ASCII; types between 31 bytes and 30 characters are not judged"}
 	yes, no := true, false
 	var cases []tc
 	add := func(label string, p M, want *bool) { cases = append(cases, tc{label, clone(p).(M), want}) }
@@ -122,6 +123,19 @@ func Run(r *core.Run) {
 		k2 := clone(good).(M)
 		delete(k2, "publicKeyJwk")
 		addKeys("neither-jwk-nor-base58", []any{k2}, &no)
+	}
+	// both material members present, one of them with a value of another JSON type (present is present, whatever the value)
+	for vi, v := range []any{"", 5.0, M{}, nil, []any{}, false} {
+		k := clone(good).(M)
+		k["publicKeyBase58"] = v
+		addKeys(fmt.Sprintf("jwk-and-odd-base58-%d", vi), []any{k}, &no)
+		add(fmt.Sprintf("replace/jwk-and-odd-base58-%d", vi), M{"action": "replace", "document": M{"publicKeys": []any{k}}}, &no)
+	}
+	for vi, v := range []any{"a string", []any{}, nil, 5.0, false} {
+		k := key("key-1", "Ed25519VerificationKey2018", "base58", []any{"authentication"})
+		k["publicKeyJwk"] = v
+		addKeys(fmt.Sprintf("base58-and-odd-jwk-%d", vi), []any{k}, &no)
+		add(fmt.Sprintf("replace/base58-and-odd-jwk-%d", vi), M{"action": "replace", "document": M{"publicKeys": []any{k}}}, &no)
 	}
 	for _, extra := range []string{"controller", "publicKeyMultibase", "publicKeyHex", "x", "Purposes", "ID"} {
 		k := clone(good).(M)
